@@ -184,7 +184,9 @@ fn wrong_password(rng: &mut Rng, d: &Doc) -> Vec<u8> {
             v.truncate(127);
             v
         } else {
-            p.iter().cloned().take(32).collect()
+            // revisions 2-4 see a password only through its 32 byte padded form: `xyz` and `xyz(` are the
+            // same password (0x28 is the first padding byte)
+            std_sec::padded(p)
         }
     };
     loop {
